@@ -14,6 +14,7 @@ pub mod c08;
 pub mod c09;
 pub mod c10;
 pub mod c10_lab;
+pub mod c10_lab2;
 pub mod c11;
 pub mod c12;
 pub mod c13;
